@@ -139,7 +139,12 @@ def run_case(case):
             if k:
                 exp += sc
             exp += ic
-        got, e = call(lambda: sep.join([v for v, _ in items]))
+        vals = [v for v, _ in items]
+        kind = case.get("iterable", len(vals)) % 4  # any iterable will do: list, tuple, one-shot generator, iterator
+        got, e = call(lambda: sep.join([vals, tuple(vals), (x for x in vals), iter(vals)][kind]))
+        if e is None and kind >= 2:
+            # observe the result the way a user would: text, length, and a further operation built on them
+            call(lambda: (got.s, len(got), got.ljust(len(vals) + 3), got.append("z")))
         res.label("join_%d" % min(len(items), 3))
         if e is not None:
             res.viol("join_raised", error=exc_str(e), case=case)
